@@ -12,5 +12,6 @@ INVARIANT RoundRefines
 INVARIANT DivRefines
 INVARIANT QuantizeRefines
 INVARIANT RatioRefines
+INVARIANT UnaryRefines
 INVARIANT Tight
 CHECK_DEADLOCK FALSE
